@@ -244,4 +244,102 @@ theorem validClause_run (hN : NumOrd N) (q : Query ν) (gs gs' : List (Group ν)
   unfold Spec.validClause
   simp only [c1, c2, c3, c4, c5, Bool.not_true, Bool.false_eq_true, if_false, bne_self_eq_false]
 
+/-! ### the oracle accepts only legal outcomes -/
+
+/-- a sorted block whose elements no later element sorts before stays in front, in order -/
+theorem sortBy_append_sorted {α : Type} (less : α → α → Bool) (out R : List α)
+    (hs : SortedBy less out) (hr : ∀ x ∈ out, ∀ r ∈ R, less r x = false) :
+    sortBy less (out ++ R) = out ++ sortBy less R := by
+  induction out with
+  | nil => rfl
+  | cons x xs ih =>
+    have hs' := List.pairwise_cons.mp hs
+    have ih' := ih hs'.2 (fun y hy r hr' => hr y (by simp [hy]) r hr')
+    simp only [List.cons_append, sortBy]
+    rw [ih']
+    cases xs with
+    | nil =>
+      cases hR : sortBy less R with
+      | nil => rfl
+      | cons r rs =>
+        have hrmem : r ∈ R := (mem_sortBy less r R).mp (by rw [hR]; simp)
+        have := hr x (by simp) r hrmem
+        simp [insertBy, this]
+    | cons y ys =>
+      have := hs'.1 y (by simp)
+      simp [insertBy, this]
+
+theorem ite_not_isNone (b : Bool) (s : String) (e : Option String)
+    (h : (if (!b) = true then some s else e).isNone = true) : b = true ∧ e.isNone = true := by
+  cases b <;> simp_all
+
+theorem ite_bne_isNone (a b : Nat) (s : String) (e : Option String)
+    (h : (if (a != b) = true then some s else e).isNone = true) : a = b ∧ e.isNone = true := by
+  by_cases hab : a = b
+  · subst hab; simpa using h
+  · have : (a != b) = true := by simpa using hab
+    rw [if_pos this] at h
+    simp at h
+
+theorem valid_only_legal (q : Query ν) (gs : List (Group ν)) (hk : (gs.map (·.key)).Nodup)
+    (out : List (Spec.SRow ν)) (hv : Spec.valid N q gs out = true) :
+    ∃ L, L.Perm (Spec.candidates N q gs) ∧ applyLimit q.limit (sortBy (Spec.specLess N q) L) = out := by
+  have hcn := candidates_nodup N q gs hk
+  -- unpack the five clauses
+  unfold Spec.valid Spec.validClause at hv
+  dsimp only at hv
+  obtain ⟨c1, hv⟩ := ite_not_isNone _ _ _ hv
+  obtain ⟨c2, hv⟩ := ite_not_isNone _ _ _ hv
+  obtain ⟨c3, hv⟩ := ite_bne_isNone _ _ _ _ hv
+  obtain ⟨c4, hv⟩ := ite_not_isNone _ _ _ hv
+  obtain ⟨c5, _⟩ := ite_not_isNone _ _ _ hv
+  have h1 : ∀ r ∈ out, r ∈ Spec.candidates N q gs := by
+    intro r hr; simpa using (List.all_eq_true.mp c1) r hr
+  have h2 : out.Nodup := (nodupB_iff out).mp c2
+  have h4 : SortedBy (Spec.specLess N q) out := (sortedBy_iff _ out).mp c4
+  let R := (Spec.candidates N q gs).filter (fun c => !out.contains c)
+  have h5 : ∀ x ∈ out, ∀ r ∈ R, Spec.specLess N q r x = false := by
+    intro x hx r hr
+    have hrc := List.mem_filter.mp hr
+    have := (List.all_eq_true.mp c5) r hrc.1
+    simp only [Bool.or_eq_true, List.all_eq_true] at this
+    rcases this with h | h
+    · have h2' := hrc.2
+      rw [h] at h2'
+      simp at h2'
+    · simpa using h x hx
+  have hperm : (out ++ R).Perm (Spec.candidates N q gs) := by
+    have hin : ((Spec.candidates N q gs).filter (fun c => out.contains c)).Perm out := by
+      apply (List.perm_ext_iff_of_nodup (hcn.sublist List.filter_sublist) h2).mpr
+      intro a
+      simp only [List.mem_filter, List.contains_iff_mem]
+      constructor
+      · intro h; exact h.2
+      · intro h; exact ⟨h1 a h, h⟩
+    exact (List.Perm.append_right R hin.symm).trans (List.filter_append_perm _ _)
+  refine ⟨out ++ R, hperm, ?_⟩
+  rw [sortBy_append_sorted _ out R h4 h5]
+  have hlen : out.length + R.length = (Spec.candidates N q gs).length := by
+    rw [← List.length_append]; exact hperm.length_eq
+  cases hl : q.limit with
+  | none =>
+    rw [hl] at c3
+    simp only [Spec.limitLen] at c3
+    have : R.length = 0 := by omega
+    have hR : R = [] := List.length_eq_zero_iff.mp this
+    simp [applyLimit, hR, sortBy]
+  | some n =>
+    rw [hl] at c3
+    simp only [Spec.limitLen] at c3
+    simp only [applyLimit]
+    by_cases hn : n ≤ (Spec.candidates N q gs).length
+    · have : out.length = n := by omega
+      exact List.take_left' this
+    · have hR0 : R.length = 0 := by omega
+      have hR : R = [] := List.length_eq_zero_iff.mp hR0
+      rw [hR]
+      simp only [sortBy, List.append_nil]
+      apply List.take_of_length_le
+      omega
+
 end PostAgg
